@@ -912,6 +912,11 @@ class SymBytes:
         return HexText(self)
 
     def decode(self, *a, **k):
+        enc = (a[0] if a else k.get('encoding', 'utf-8')).lower().replace('-', '').replace('_', '')
+        if enc in ('utf8', 'u8') and E() is not None and len(self):
+            hi = int('80' * len(self), 16)
+            if not E().decide((self.bv() & hi) == 0):
+                return UniText.from_utf8(self)
         return AsciiText(self)
 
     def __hash__(self):
@@ -992,6 +997,102 @@ class AsciiText:
                 return self.b == o.encode('ascii')
             except UnicodeEncodeError:
                 return False
+        return False
+
+    def __ne__(self, o):
+        r = self.__eq__(o)
+        return (not r) if isinstance(r, bool) else ~r
+
+    def __hash__(self):
+        return 0
+
+    def __format__(self, spec):
+        return '<symbolic text>'
+
+
+UNI_PAYLOAD = {1: 7, 2: 11, 3: 16}
+
+
+def uni_layout(classes):
+    """bit offsets (from the most significant end) of each character's code-point bits inside one input integer"""
+    return sum(UNI_PAYLOAD[c] for c in classes)
+
+
+def uni_valid(cls, cp):
+    """validity of a code point for its UTF-8 length class (shortest form, no surrogates); works on ints and z3 terms"""
+    if cls == 1:
+        return True
+    if cls == 2:
+        return cp >= 0x80
+    lo, hi = 0xD800, 0xDFFF
+    if isinstance(cp, int):
+        return cp >= 0x800 and not (lo <= cp <= hi)
+    return z3.And(z3.UGE(cp, 0x800), z3.Or(z3.ULT(cp, lo), z3.UGT(cp, hi)))
+
+
+class UniText:
+    """text given by its UTF-8 encoding (symbolic bytes) and the encoded length of each character (concrete: 1, 2 or 3):
+    len() counts characters, encode() gives the bytes"""
+    def __init__(self, b, classes):
+        self.b, self.classes = b, tuple(classes)
+
+    @staticmethod
+    def build(cps):
+        """from [(class, code point: int or z3 bit-vector of UNI_PAYLOAD[class] bits)]"""
+        parts = []
+        for cls, cp in cps:
+            v = cp if not isinstance(cp, int) else z3.BitVecVal(cp, UNI_PAYLOAD[cls])
+            if cls == 1:
+                parts.append(z3.Concat(z3.BitVecVal(0, 1), v))
+            elif cls == 2:
+                parts += [z3.Concat(z3.BitVecVal(0b110, 3), z3.Extract(10, 6, v)), z3.Concat(z3.BitVecVal(0b10, 2), z3.Extract(5, 0, v))]
+            else:
+                parts += [z3.Concat(z3.BitVecVal(0b1110, 4), z3.Extract(15, 12, v)), z3.Concat(z3.BitVecVal(0b10, 2), z3.Extract(11, 6, v)),
+                          z3.Concat(z3.BitVecVal(0b10, 2), z3.Extract(5, 0, v))]
+        bv = z3.Concat(*parts) if len(parts) > 1 else parts[0]
+        return UniText(mkbytes(Bits.of_bv(bv)), [c for c, _ in cps])
+
+    @staticmethod
+    def from_utf8(b):
+        """classify the lead bytes syntactically (their marker bits are constants in every text this engine builds)"""
+        classes, i, n = [], 0, len(b)
+        bv = b.bv()
+
+        def top(k, width):
+            t = z3.simplify(z3.Extract(8 * (n - k) - 1, 8 * (n - k) - width, bv))
+            return t.as_long() if z3.is_bv_value(t) else None
+        while i < n:
+            if top(i, 1) == 0:
+                cls = 1
+            elif top(i, 3) == 0b110:
+                cls = 2
+            elif top(i, 4) == 0b1110:
+                cls = 3
+            else:
+                raise Unmodelled('UTF-8 decoding of symbolic bytes whose lead-byte class is not fixed')
+            if i + cls > n or any(top(i + j, 2) != 0b10 for j in range(1, cls)):
+                raise Unmodelled('UTF-8 decoding: continuation bytes not fixed')
+            classes.append(cls)
+            i += cls
+        return UniText(b, classes)
+
+    def encode(self, *a, **k):
+        enc = (a[0] if a else k.get('encoding', 'utf-8')).lower().replace('-', '').replace('_', '')
+        if enc not in ('utf8', 'u8'):
+            raise Unmodelled('encoding symbolic text other than as UTF-8')
+        return self.b
+
+    def __len__(self):
+        return len(self.classes)
+
+    def __eq__(self, o):
+        if isinstance(o, UniText):
+            return self.classes == o.classes and self.b == o.b
+        if isinstance(o, AsciiText):
+            return all(c == 1 for c in self.classes) and len(o) == len(self) and self.b == o.b
+        if isinstance(o, str):
+            e = o.encode('utf-8')
+            return len(o) == len(self) and len(e) == len(self.b) and self.b == e
         return False
 
     def __ne__(self, o):
